@@ -47,6 +47,7 @@ Definition CLASSIFIED : list (string * site_class) := [
   ("gapic/utils/lines.py|sort_lines|set-call|1", SortedTotal);
   ("gapic/utils/options.py|Options|frozenset-call|1", ConstantLookup);
   ("gapic/utils/reserved_names.py|<module>|frozenset-call|1", ConstantLookup);
+  ("gapic/utils/reserved_names.py|<module>|frozenset-call|2", ConstantLookup);
   ("gapic/samplegen/samplegen.py|<module>|frozenset-call|1", ConstantLookup);
   ("gapic/samplegen/samplegen.py|<module>|set-literal|1", ConstantLookup);
   ("gapic/samplegen/samplegen.py|Validator|frozenset-call|1", ConstantLookup);
